@@ -357,6 +357,7 @@ func scenarios() []scenario {
 					return "error " + err.Error()
 				}
 				b, _ := json.Marshal(s)
+				scribbleOwn(s, "edited by the caller of "+t.String())
 				return string(b)
 			}
 		}
@@ -386,6 +387,7 @@ func scenarios() []scenario {
 					return "error " + err.Error()
 				}
 				b, _ := json.Marshal(s)
+				scribbleOwn(s, "edited by the caller of "+t.String())
 				return string(b)
 			}
 		}
@@ -413,6 +415,7 @@ func scenarios() []scenario {
 					return "error " + err.Error()
 				}
 				b, _ := json.Marshal(s)
+				scribbleOwn(s, "edited by the caller of "+t.String())
 				return string(b)
 			}
 		}
@@ -531,6 +534,21 @@ func sequentialResults(sc scenario) ([]string, string, bool) {
 
 // digest renders the shared inputs structurally (no addresses): schema trees
 // through their exported fields, instances through encoding/json.
+// scribbleOwn edits every subschema reachable from a result its caller owns (a caller may customise
+// what For returned): if a node is shared with the supplied TypeSchemas or with another caller's
+// result, the shared-input digest or the other result changes.
+func scribbleOwn(s *jsonschema.Schema, tag string) {
+	if s == nil {
+		return
+	}
+	s.Description = tag
+	for _, c := range s.Properties {
+		scribbleOwn(c, tag)
+	}
+	scribbleOwn(s.Items, tag)
+	scribbleOwn(s.AdditionalProperties, tag)
+}
+
 func digest(x any) string {
 	switch v := x.(type) {
 	case *jsonschema.Schema:
